@@ -169,7 +169,7 @@ func scenarios(r *vh.Run, wait time.Duration) []Scenario {
 	for _, cl := range closers {
 		// 32 KiB writes = 25 fragments per Write over a bandwidth-limited path (one datagram per ms): a Write returns as soon
 		// as the queue moves, so the writer outruns the path and the queue fills as far as writeChunk lets it; if no Write ever
-		// left it full, the closer waits until the backlog has shrunk to an eighth, so that the rest drains well within the
+		// left it full, the closer waits until the backlog has shrunk to a sixteenth, so that the rest drains well within the
 		// bounded wait of a graceful close
 		add(Scenario{Name: "sendq-full-paced", Transport: "udp", Closer: cl, N: 400 * 32768, Writes: 400, WriteSize: 32768, CloseWhenFull: true, Latency: 2 * ms, Pace: 1 * ms})
 	}
